@@ -802,7 +802,9 @@ pub fn assert_slippage_tolerance(
             deposits.iter().map(|coin| coin.amount.into()).collect();
 
         // Sort assets by denom to ensure the order of the assets in the pool is the same as the
-        // deposits, which are sorted previously
+        // deposits, which are sorted previously. This is done on a copy: the caller stores its list
+        // back as the pool's reserves, which must stay in the order of asset_denoms / asset_decimals
+        let mut pool_assets = pool_assets.to_vec();
         pool_assets.sort_by(|a, b| a.denom.cmp(&b.denom));
 
         let pools: Vec<Uint256> = pool_assets.iter().map(|coin| coin.amount.into()).collect();
@@ -810,7 +812,7 @@ pub fn assert_slippage_tolerance(
         // Ensure each prices are not dropped as much as slippage tolerance rate
         match pool_type {
             PoolType::StableSwap { amp: amp_factor } => {
-                let d_initial = compute_d(&amp_factor, pool_assets).unwrap();
+                let d_initial = compute_d(&amp_factor, &pool_assets).unwrap();
                 let final_pool_assets = add_coins(pool_assets.to_vec(), deposits.to_vec())?;
                 let d_final = compute_d(&amp_factor, &final_pool_assets).unwrap();
 
